@@ -164,6 +164,9 @@ def impl_prepare(kind: str, spec, via_cache: bool = False, isolate: bool = True)
             registry_cleanup()
 
 
+_KEEP: list | None = None     # inside a sequence case: what was prepared stays alive, as it would in an operator
+
+
 def _impl_prepare(kind: str, spec, via_cache: bool = False) -> dict:
     import koreo_util as ku
     from koreo import cache
@@ -188,6 +191,8 @@ def _impl_prepare(kind: str, spec, via_cache: bool = False) -> dict:
                 c = ku.outcome_class(got)
                 r = "odd-return" if c == "ok" else c
         msg = str(getattr(got, "message", ""))[:100] if r != "prepared" else ""
+        if _KEEP is not None:
+            _KEEP.append(got)
     except BaseException as e:  # noqa: BLE001   (that it raises is the observation)
         if isinstance(e, (KeyboardInterrupt, SystemExit)):
             raise
@@ -382,7 +387,7 @@ def _expression_batch(ck: Check, drv: LeanDriver, sources, slots, r, serial: int
             bad = expr_case_ok(res)
             if bad:
                 if len(ck.violations) < 200:
-                    ck.violate({"kind": "prepare", "resource": kind, "slot": slot, "spec": spec, "via_cache": via},
+                    ck.violate({"kind": "prepare", "resource": kind, "slot": slot, "spec": encode_case(spec), "via_cache": via},
                                f"prepare of {kind} with `{src}` in {slot} {bad}")
                 else:
                     ck.count("further-violations")
@@ -718,10 +723,109 @@ def _spec_batch(ck: Check, drv: LeanDriver, n: int, r, offset: int):
                 ck.disagree({"kind": "spec", "resource": kind, "spec": encode_case(spec)}, ans, mine, "schema-gate-first")
 
 
+# --------------------------------------------------------------------------- sequences of prepares in one process
+
+_kind_serial = [0]
+
+
+def fresh_kind() -> str:
+    _kind_serial[0] += 1
+    return f"Widget{_kind_serial[0]}"
+
+
+def gen_sequence(r):
+    """(steps, pure): 2-5 prepares; `pure` = only `apiVersion` varies (fresh plain kinds), the model's domain"""
+    n = r.randint(2, 5)
+    pure = r.random() < 0.5
+    steps = []
+    for i in range(n):
+        last = i == n - 1
+        if not pure and not last and r.random() < 0.15:
+            k = r.choice(["FunctionTest", "Workflow", "ValueFunction"])
+            steps.append({"resource": k, "spec": base_spec(k, r), "via_cache": r.random() < 0.3})
+            continue
+        spec = (base_spec("ResourceFunction", r) if not pure and r.random() < 0.2 else
+                {"apiConfig": {"apiVersion": "v1", "kind": "ConfigMap", "name": "n", "namespace": "ns"},
+                 "resource": {"data": {"k": "v"}}})
+        api = spec["apiConfig"]
+        api.pop("plural", None)
+        if last and not pure:
+            api["apiVersion"] = r.choice(["v1", "example.com/v1", "apps/v1"])
+            api["kind"] = r.choice([fresh_kind(), "ConfigMap", "Deployment"])
+        else:
+            api["apiVersion"] = r.choice(API_STRINGS) if r.random() < 0.6 else r.choice(["v1", "example.com/v1"])
+            api["kind"] = fresh_kind() if pure or r.random() < 0.7 else r.choice(API_STRINGS)
+        steps.append({"resource": "ResourceFunction", "spec": spec, "via_cache": (not pure) and r.random() < 0.3})
+    return steps, pure
+
+
+def run_sequence(steps) -> list:
+    """the steps one after the other in one registry lifetime (whatever was prepared stays referenced)"""
+    global _KEEP
+    registry_cleanup()
+    _KEEP = []
+    try:
+        return [impl_prepare(st["resource"], st["spec"], via_cache=st.get("via_cache", False), isolate=False)
+                for st in steps]
+    finally:
+        _KEEP = None
+        registry_cleanup()
+
+
+def sequence_oracle(steps, results) -> str | None:
+    for i, (st, res) in enumerate(zip(steps, results)):
+        bad = expr_case_ok(res)
+        if bad:
+            api = st["spec"].get("apiConfig", {}) if isinstance(st["spec"], dict) else {}
+            return (f"prepare #{i + 1} of {len(steps)} in one process ({st['resource']} "
+                    f"{api.get('apiVersion')!r}/{api.get('kind')!r}) {bad}")
+    return None
+
+
+def run_sequences(ck: Check, drv: LeanDriver, n: int, r):
+    setup_world()
+    reqs, keep = [], []
+    for i in range(n):
+        steps, pure = gen_sequence(r)
+        results = run_sequence(steps)
+        ck.evaluated()
+        ck.count(f"sequence:len{len(steps)}")
+        ck.count("sequence:" + ("apiVersion-only" if pure else "mixed"))
+        for res in results:
+            ck.count(f"sequence-step:{res['r']}")
+        ck.nontriv(hash(dumps_big(steps, sort_keys=True, default=str)))
+        bad = sequence_oracle(steps, results)
+        if bad:
+            if len(ck.violations) < 40:
+                small = common.ddmin(steps, lambda sub: sequence_oracle(sub, run_sequence(sub)) is not None)
+                bad = sequence_oracle(small, run_sequence(small)) or bad
+            else:
+                small = steps
+            if len(ck.violations) < 200:
+                ck.violate({"kind": "sequence", "steps": encode_case(small)}, bad)
+        if pure and not any(res["r"] == "raised" for res in results):
+            reqs.append({"op": "registry", "versions": [st["spec"]["apiConfig"]["apiVersion"] for st in steps]})
+            keep.append((steps, results))
+        if i % 500 == 499:
+            setup_world()
+            gc.collect()
+    answers = c14.ask(ck, drv, reqs)
+    for (steps, results), ans in zip(keep, answers):
+        if ans is None:
+            continue
+        mine = [res["r"] for res in results]
+        if ans.get("results") != mine or ans.get("usable") is not True:
+            ck.disagree({"kind": "sequence", "steps": encode_case(steps)}, ans, mine, "registry-sequence")
+
+
 # --------------------------------------------------------------------------- corpus / replay
 
 def replay_case(case) -> str | None:
+    case = decode_case(case)
     k = case.get("kind")
+    if k == "sequence":
+        setup_world()
+        return sequence_oracle(case["steps"], run_sequence(case["steps"]))
     if k == "extract":
         tree, got = c14.impl_extract(case["text"])
         return f"extract_argument_structure raised: {got[1]}" if got[0] == "raise" else None
@@ -732,6 +836,10 @@ def replay_case(case) -> str | None:
         return f"prepare of {case['resource']} {bad}" if bad else None
     if k == "spec":
         setup_world()
+        # as in the stream, well-formed specs of the kind have been prepared in this process before
+        import random
+        for i in range(6):
+            impl_prepare(case["resource"], base_spec(case["resource"], random.Random(i)))
         v = independent_verdicts([[case["resource"], case["spec"]]])[0]
         return spec_oracle(v, impl_prepare(case["resource"], case["spec"], via_cache=case.get("via_cache", False)))
     return f"unknown case kind {k}"
@@ -747,7 +855,7 @@ def run_corpus(ck: Check):
             ck.evaluated()
             bad = replay_case(case)
             if bad:
-                ck.violate(case, f"[corpus {f.name}] {bad}")
+                ck.violate(encode_case(case), f"[corpus {f.name}] {bad}")
     ck.count("corpus-cases", n)
 
 
@@ -774,18 +882,24 @@ def run(tier: str) -> int:
     quick = tier == "quick"
     run_corpus(ck)
     t0 = time.time()
-    run_expressions(ck, drv, 3000 if quick else 60000, r)
+    run_expressions(ck, drv, 3000 if quick else 50000, r)
     ck.notes.append(f"expression stream: {time.time() - t0:.1f}s")
     t0 = time.time()
     run_specs(ck, drv, 3000 if quick else 100000, r)
     ck.notes.append(f"spec stream: {time.time() - t0:.1f}s")
+    t0 = time.time()
+    run_sequences(ck, drv, 400 if quick else 8000, r)
+    ck.notes.append(f"sequence stream: {time.time() - t0:.1f}s")
     return ck.finish(
         rule="expression stream: random CEL expressions of every syntactic shape (incl. index / call / member on "
              "parenthesised, literal, list, map, call and message receivers) placed in every expression-bearing field "
              "of ValueFunction, ResourceFunction, ResourceTemplate, Workflow and FunctionTest, through prepare_* and "
              "cache.prepare_and_cache; spec stream: well-formed specs of the five kinds mutated at random paths (type "
              "confusion, deleted parts, oversized lists, wrong enum, both/neither of a oneOf, extra keys, junk roots) "
-             "with the verdict of the jsonschema package; non-trivial = a (kind, field, expression) placement, or a "
+             "with the verdict of the jsonschema package; numeric leaves replaced by integral / non-integral floats, "
+             "64-bit bounds, integers beyond the int<->str digit limit, look-alike strings; apiVersion / kind strings "
+             "kr8s splits on; sequences of 2-5 prepares in one process (kr8s class registry kept alive) ending in an "
+             "ordinary one; non-trivial = a (kind, field, expression) placement, or a "
              "spec the independent validator rejects; distinct by text",
     )
 
